@@ -39,6 +39,10 @@ pub struct Inner {
     pub wfail_at: Option<usize>,
     pub accepted_total: usize,
     pub read_calls: usize,
+    /// (asked, got) of every read call since the last take_sys()
+    pub sys: Vec<(usize, usize)>,
+    pub write_failed: bool,
+    pub write_zero: bool,
     pub write_calls: usize,
     pub consumed: usize,
     /// called when the client reads on an empty queue: the peer's turn (may look at writes)
@@ -63,6 +67,9 @@ impl Script {
             wfail_at: None,
             accepted_total: 0,
             read_calls: 0,
+            sys: Vec::new(),
+            write_failed: false,
+            write_zero: false,
             write_calls: 0,
             consumed: 0,
             responder: None,
@@ -75,6 +82,9 @@ impl Script {
     }
     pub fn take_writes(&self) -> Vec<Vec<u8>> {
         std::mem::replace(&mut self.0.borrow_mut().writes, Vec::new())
+    }
+    pub fn take_sys(&self) -> Vec<(usize, usize)> {
+        std::mem::replace(&mut self.0.borrow_mut().sys, Vec::new())
     }
     pub fn pending(&self) -> usize {
         self.0.borrow().inq.len()
@@ -109,6 +119,8 @@ impl Read for ScriptStream {
         }
         if g.inq.is_empty() || buf.is_empty() {
             g.eof_reads += 1;
+            let asked = buf.len();
+            g.sys.push((asked, 0));
             return Ok(0);
         }
         let mut n = buf.len().min(g.inq.len());
@@ -127,6 +139,8 @@ impl Read for ScriptStream {
             buf[i] = g.inq.pop_front().unwrap();
         }
         g.consumed += n;
+        let asked = buf.len();
+        g.sys.push((asked, n));
         Ok(n)
     }
 }
@@ -153,11 +167,13 @@ impl Write for ScriptStream {
             if g.accepted_total + n > at {
                 let before = at - g.accepted_total;
                 if before == 0 {
+                    g.write_failed = true;
                     return Err(io::Error::new(io::ErrorKind::BrokenPipe, "scripted write failure"));
                 }
                 n = before;
             }
         }
+        if n == 0 && !buf.is_empty() { g.write_zero = true; }
         g.accepted_total += n;
         g.writes.push(buf[..n].to_vec());
         Ok(n)
